@@ -24,7 +24,7 @@ Definition last_sent (s : state) (c0 : nat) : option (list (option st)) :=
   | None => None
   end.
 
-(* ---------------------------------------------------------------- the unconditional clause is false *)
+(* ---------------------------------------------------------------- the schedule that used to refute the clause *)
 
 Definition subs_cfg : config :=
   {| specs := [ {| stateable := true; reloadable := false; rsender := false; ssender := false;
@@ -33,24 +33,24 @@ Definition subs_cfg : config :=
                    stop_style := StopNonBlocking; run_exit := ExitOnSignal; held_sub := false |} ];
      startup_may_fire := false; shutdown_may_fire := false |}.
 
-(* the subscriber arrives while runnable 0 is at its gate; runnable 1 is started afterwards:
-   startRunnable stores its initial state without a broadcast and its monitor discards the first
-   channel value because it equals the stored one *)
+(* the subscriber arrives while runnable 0 is at its gate; runnable 1 is started afterwards and never
+   changes state: its monitor discards the first channel value (equal to the stored one).  Before
+   the repair startRunnable stored the initial state silently and the subscriber never learnt the
+   new entry; now startRunnable broadcasts the map. *)
 Definition subs_sched : list label :=
-  [LLaunch 0; LRunCall 0; LMonSub 0; LMonRecv 0; LSubscribe 7; LSubDo 7; LSubRecv 7 [Some 0; None];
-   LPoll 0 true; LGateDecide 0; LLaunch 1; LRunCall 1; LMonSub 1; LMonRecv 1; LPoll 1 true; LGateDecide 1;
+  [LLaunch 0; LRunStore 0; LRunCall 0; LMonSub 0; LMonRecv 0; LSubscribe 7; LSubDo 7; LSubRecv 7 [Some 0; None];
+   LPoll 0 true; LGateDecide 0; LLaunch 1; LRunStore 1; LRunCall 1; LMonSub 1; LMonRecv 1; LPoll 1 true; LGateDecide 1;
    LQuiet].
 
-Lemma c06_subscriber_refuted :
-  exists c ls s b,
-    run (step c) (init c) ls = Some s /\ quiescent c s = true /\ ctx_done s = false /\
-    find_sub 7 (subs s) = Some b /\ sub_registered b = true /\ sub_buf b = [] /\
-    last_sent s 7 = Some [Some 0; None] /\ smap s = [Some 0; Some 0].
+Lemma subs_sched_delivers :
+  exists s b,
+    run (step subs_cfg) (init subs_cfg) subs_sched = Some s /\ quiescent subs_cfg s = true /\
+    find_sub 7 (subs s) = Some b /\ sub_buf b = [[Some 0; Some 0]] /\
+    last_sent s 7 = Some [Some 0; Some 0] /\ smap s = [Some 0; Some 0].
 Proof.
-  exists subs_cfg, subs_sched. eexists. eexists.
-  split; [vm_compute; reflexivity|]. split; [vm_compute; reflexivity|]. split; [vm_compute; reflexivity|].
-  split; [vm_compute; reflexivity|]. split; [reflexivity|]. split; [reflexivity|].
-  split; vm_compute; reflexivity.
+  eexists. eexists.
+  split; [vm_compute; reflexivity|]. split; [vm_compute; reflexivity|].
+  split; [vm_compute; reflexivity|]. split; [reflexivity|]. split; vm_compute; reflexivity.
 Qed.
 
 (* ---------------------------------------------------------------- list facts *)
@@ -131,12 +131,13 @@ Record Track (s : state) (c0 : nat) : Prop := {
 }.
 
 (* the steps under which tracking is claimed: the subscriber's channel has room whenever a
-   broadcast happens, the stores done by startRunnable / Shutdown / the reload manager do not
-   change the map, the state-monitor manager has not exited, c0 is not unsubscribed *)
+   broadcast happens (a monitor's, or startRunnable's after it stored the initial state), the stores
+   done by Shutdown / the reload manager do not change the map, the state-monitor manager has not
+   exited, c0 is not unsubscribed *)
 Definition ok_label (c : config) (c0 : nat) (s : state) (l : label) : Prop :=
   match l with
-  | LMonBcast _ => forall b, find_sub c0 (subs s) = Some b -> length (sub_buf b) < 10
-  | LRunCall i | LStopRet i | LReloadRet i =>
+  | LMonBcast _ | LRunStore _ => forall b, find_sub c0 (subs s) = Some b -> length (sub_buf b) < 10
+  | LStopRet i | LReloadRet i =>
     stateable (spec c i) = true -> smap_at s i = Some (cur_at s i)
   | LStmExit => False
   | LSdWgDone => False   (* Shutdown's final stores after its wait are silent (repo 4585550); the clause is about the running phase *)
@@ -259,6 +260,26 @@ Proof.
   destruct (sub_buf b); [|exact Tl]. rewrite last_recv_other; [exact Tl|]. intros ? X; discriminate X.
 Qed.
 
+(* startRunnable stores the initial state and broadcasts the new map *)
+Lemma Track_store_bcast s s' c0 i v :
+  i < length (smap s) -> smap s' = upd (smap s) i (Some v) -> mon s' = mon s ->
+  subs s' = broadcast (upd (smap s) i (Some v)) (subs s) ->
+  (forall b, find_sub c0 (subs s) = Some b -> length (sub_buf b) < 10) ->
+  Track s c0 -> Track s' c0.
+Proof.
+  intros Li Em Eo Es Hroom [(b & Hb & Hr & Hst) Tl].
+  pose proof (Hroom b Hb) as Hlt. apply Nat.ltb_lt in Hlt.
+  set (m := upd (smap s) i (Some v)) in *.
+  assert (Hm : existsb (fun o => match o with Some _ => true | None => false end) m = true).
+  { apply (some_entry m i). unfold m. rewrite get_upd_same by exact Li. discriminate. }
+  assert (Hf : find_sub c0 (subs s') = Some (bc1 m b)) by (now rewrite Es, find_sub_broadcast, Hb).
+  constructor.
+  - exists (bc1 m b). split; [exact Hf|]. unfold bc1. destruct (_ && _); cbn; auto.
+  - right. unfold bc1 in Hf. rewrite Hr, Hlt, Hm in Hf. cbn [andb] in Hf.
+    unfold last_sent. rewrite Hf, Em. cbn [sub_buf].
+    destruct (sub_buf b) as [|x q]; cbn [app]; [reflexivity|]. now rewrite last_snoc'.
+Qed.
+
 Ltac hist_nr :=
   first [ left; reflexivity
         | right; eexists; split; [reflexivity|intros ? X; discriminate X] ].
@@ -279,6 +300,10 @@ Proof.
   all: try (apply (Track_frame s); [reflexivity|reflexivity|reflexivity|hist_nr|exact T]; fail).
   (* startRunnable / Shutdown / reload manager store a state: by assumption the map does not change *)
   all: cbn [ok_label] in Hok.
+  all: try (match goal with E : (_ <? nrun _) && _ = true |- _ =>
+              apply andb_true_iff in E as [E ?]; apply Nat.ltb_lt in E end;
+            eapply (Track_store_bcast s); [|reflexivity|reflexivity|reflexivity|exact Hok|exact T];
+            rewrite Lsmap; assumption).
   all: try (apply (Track_frame s); [reflexivity| |reflexivity|hist_nr|exact T]; simp_st;
             unfold cur_at; simp_st;
             match goal with E : stateable _ = true |- _ => pose proof (Hok E) as X end;
